@@ -30,7 +30,7 @@ PROPERTY = "C20"
 LEVEL = "exploration"
 BUDGET = {"quick": 640, "thorough": 40000}
 CHUNK = 4
-RUN_TIMEOUT_S = 300
+RUN_TIMEOUT_S = 1500
 MAX_DISCARD_FRACTION = 0.5
 RULE = (
     "seeded runs of all eight solvers (RATTLE, Moreau, BackwardEuler, DualStormerVerlet, ScipyIVP, ScipyDAE, static Newton, "
